@@ -36,7 +36,8 @@ type Gen struct {
 	midStop    bool
 	drainFirst bool
 	wide       map[string][]uint32 // wide-ids runs: the id standing for the i-th small id, per kind
-	mass       int                 // >0: many sessions with 8 periodic URRs of one period (batch limit)
+	filled     bool
+	mass       int // >0: many sessions with 8 periodic URRs of one period (batch limit)
 	massPeriod uint32
 }
 
@@ -221,6 +222,9 @@ func profileConfig(p string, seed uint64) RunConfig {
 		if seed%8 == 5 && c.Steps > 0 && !c.FreeRun && c.MaxRetrans < 10 && c.KernLatency < 200 {
 			c.Accum = true
 			c.Steps += 130
+			if p == "C06" && seed%32 == 5 {
+				c.Steps += 750 // room for a flood of hundreds of requests inside one retention window
+			}
 		}
 	case "C18":
 		c.Interpose = false
@@ -284,6 +288,19 @@ func profileConfig(p string, seed uint64) RunConfig {
 			// URRs with periods of seconds: a day of one-second ticks is 86 400 of them)
 			c.LongPeriods = true
 		}
+	}
+	if (p == "C04" || p == "C05") && seed%128 == 17 {
+		// population is a dimension too: hundreds of sessions alive at once (one run in 128;
+		// such a run costs about a second), more than a thousand (C04, one run in 2048, eight
+		// seconds each); see Gen.fill
+		rm := rand.New(rand.NewPCG(seed, 0x3a9))
+		c.Many = pick(rm, 260, 300, 520)
+		if p == "C04" && seed%2048 == 145 {
+			c.Many = pick(rm, 1030, 1100)
+		}
+		c.NSlots = (c.Many+c.NSMF-1)/c.NSMF + 2
+		c.Steps = c.Many*2 + 80
+		c.LogLevel, c.LogYield = "error", 0
 	}
 	if (p == "C15" || p == "C03") && seed%8 == 3 && len(c.Faults) == 0 && c.KernLatency == 0 && c.LogYield == 0 {
 		// the periodic server kept inside one tick while registrations change and further
@@ -1115,6 +1132,10 @@ func (g *Gen) next() (Action, bool) {
 		m := s.smfs[g.n-1]
 		return g.noteSent(Action{Op: "send", SMF: m.Idx, Msg: &MsgIntent{T: "assoc", Seq: g.seq(m)}}), true
 	}
+	if s.cfg.Many > 0 && !g.filled {
+		g.filled = true
+		g.fill()
+	}
 	for len(g.pending) > 0 {
 		f := g.pending[0]
 		g.pending = g.pending[1:]
@@ -1331,6 +1352,11 @@ func (g *Gen) one() (Action, bool) {
 		// buffers holds, then the first request once more (inside the retention window)
 		ref := s.actNo
 		n := pick(g.rng, 17, 33, 65, 70, 100, 129)
+		if s.cfg.Steps > 800 && g.chance(0.6) {
+			// more requests inside one retention window than any table of them is likely to
+			// be sized for
+			n = pick(g.rng, 300, 520, 700)
+		}
 		for i := 0; i < n; i++ {
 			g.pending = append(g.pending, func() (Action, bool) {
 				mm := s.smfs[g.intn(len(s.smfs))]
@@ -1732,6 +1758,85 @@ func (g *Gen) kbuf() (Action, bool) {
 
 // special: profile-specific actions.
 func (g *Gen) special() (Action, bool) { return Action{}, false }
+
+// fill: the many-sessions scenario. Cfg.Many small sessions are established round-robin by
+// the peers (the session table grows to that size), then released in an order chosen to
+// leave the table and its free list in unusual shapes - the top of the table last, or the
+// slot below the top first, ranges from the top downwards, a random subset -, then a few
+// are established again. After that the run goes on as usual (probes, deletions,
+// re-associations) on the large population.
+func (g *Gen) fill() {
+	s := g.s
+	n := s.cfg.Many
+	type ref struct{ m, sl int }
+	var order []ref
+	for i := 0; i < n; i++ {
+		r := ref{i % len(s.smfs), i / len(s.smfs)}
+		order = append(order, r)
+		g.pending = append(g.pending, func() (Action, bool) {
+			m := s.smfs[r.m]
+			g.cp++
+			in := &MsgIntent{T: "est", Seq: g.seq(m), Slot: r.sl, CPSEID: g.cp<<16 | uint64(m.Idx+1)}
+			in.Create = append(in.Create, RuleIntent{Kind: "far", ID: 1, Action: u16p(2), ActionLen: 1},
+				RuleIntent{Kind: "pdr", ID: 1, Prec: u32p(uint32(r.sl + 1)), SrcIf: u8p(1), FARID: u32p(1)})
+			return Action{Op: "send", SMF: m.Idx, Msg: in}, true
+		})
+	}
+	del := func(r ref) {
+		g.pending = append(g.pending, func() (Action, bool) {
+			m := s.smfs[r.m]
+			if g.liveOf(m, r.sl) == nil {
+				return Action{}, false
+			}
+			return Action{Op: "send", SMF: m.Idx, Msg: &MsgIntent{T: "del", Seq: g.seq(m), Slot: r.sl}}, true
+		})
+	}
+	// sessions were established in order, so order[i] holds the (i+1)-th slot of the table
+	// as long as nothing was released before (SEIDs are the UPF's choice: this is a bias,
+	// not an assumption)
+	top := n - 1
+	switch g.intn(4) {
+	case 0:
+		// the slot below the top, a low one, then the top
+		del(order[top-1])
+		del(order[g.intn(n/2)])
+		del(order[top])
+	case 1:
+		// a range from somewhere in the lower half up to the top, in ascending order except
+		// that the top goes last; a low one in between
+		from := g.intn(n/2 + 1)
+		for i := from; i < top; i++ {
+			del(order[i])
+			if i == (from+top)/2 && from > 0 {
+				del(order[g.intn(from)])
+			}
+		}
+		del(order[top])
+	case 2:
+		// a range from the top downwards
+		k := 1 + g.intn(n-1)
+		for i := top; i > top-k; i-- {
+			del(order[i])
+		}
+	default:
+		// a random subset, in random order
+		for _, i := range g.rng.Perm(n)[:n/4+g.intn(n/2)] {
+			del(order[i])
+		}
+	}
+	for i, k := 0, 3+g.intn(4); i < k; i++ {
+		g.pending = append(g.pending, func() (Action, bool) {
+			// any free slot of any peer
+			for _, j := range g.rng.Perm(n) {
+				r := order[j]
+				if m := s.smfs[r.m]; g.liveOf(m, r.sl) == nil {
+					return Action{Op: "send", SMF: m.Idx, Msg: g.estMsg(m, r.sl)}, true
+				}
+			}
+			return Action{}, false
+		})
+	}
+}
 
 // somePeriod: a measurement period from a small set, so that period groups are shared; in a
 // "long periods" run minutes to days, some of them close together (the fake clock makes an
